@@ -16,7 +16,7 @@ Printer B executes the file, printer A executes what the hook results mean to Oc
 only at observations (hook results, sendCommand traffic, API responses, notifications, A/B), never at
 implementation internals; private attributes are read only to build the canonical key.
 """
-import hashlib, io, json, math, pickle, re, types
+import copyreg, hashlib, io, json, math, pickle, re, types
 from fractions import Fraction as Fr
 
 from . import harness as H
@@ -100,14 +100,50 @@ def fmt(v):
 # copying them by reference is exact (functions defined inside a function, lambdas: immutable code).  Those are
 # carried by persistent id through a per-process table; everything else is pickled by value as usual.
 _FN_TABLE = {}
+_EMPTY_CELL = "__empty_cell__"
+
+
+def _is_local_fn(obj):
+    return isinstance(obj, types.FunctionType) and ("<locals>" in obj.__qualname__ or obj.__name__ == "<lambda>")
+
+
+def _make_fn(code, modname, name, qualname, ncells):
+    import sys
+    cells = tuple(types.CellType() for _ in range(ncells))
+    f = types.FunctionType(code, sys.modules[modname].__dict__, name, None, cells)
+    f.__qualname__ = qualname
+    return f
+
+
+def _set_fn_state(f, state):
+    defaults, kwdefaults, cellvals, d = state
+    f.__defaults__ = defaults
+    f.__kwdefaults__ = kwdefaults
+    for c, v in zip(f.__closure__ or (), cellvals):
+        if not (isinstance(v, str) and v == _EMPTY_CELL):
+            c.cell_contents = v
+    f.__dict__.update(d)
 
 
 class _Pickler(pickle.Pickler):
     def persistent_id(self, obj):
-        if isinstance(obj, types.FunctionType) and ("<locals>" in obj.__qualname__ or obj.__name__ == "<lambda>"):
-            _FN_TABLE[id(obj)] = obj
+        if isinstance(obj, types.CodeType) or (_is_local_fn(obj) and not obj.__closure__):
+            _FN_TABLE[id(obj)] = obj          # immutable: carried by reference
             return ("fn", id(obj))
         return None
+
+    def reducer_override(self, obj):
+        if _is_local_fn(obj) and obj.__closure__:
+            # a closure is copied by value: its cells may hold the very objects that are being copied (self)
+            vals = []
+            for c in obj.__closure__:
+                try:
+                    vals.append(c.cell_contents)
+                except ValueError:
+                    vals.append(_EMPTY_CELL)
+            return (_make_fn, (obj.__code__, obj.__module__, obj.__name__, obj.__qualname__, len(vals)),
+                    (obj.__defaults__, obj.__kwdefaults__, tuple(vals), dict(obj.__dict__)), None, None, _set_fn_state)
+        return NotImplemented
 
 
 class _Unpickler(pickle.Unpickler):
@@ -126,6 +162,23 @@ def dumps(obj):
 
 def loads(data):
     return _Unpickler(io.BytesIO(data)).load()
+
+
+def _new_plugin():
+    p = H.PKG.ExcludeRegionPlugin.__new__(H.PKG.ExcludeRegionPlugin)
+    p._settings = _shared_settings()
+    return p
+
+
+def _reduce_plugin(p):
+    # everything the plugin object holds except OctoPrint's settings object (process-wide, re-attached on load); going
+    # through the object itself (not its dict) keeps bound methods and closures stored in the state pointing at the copy
+    d = dict(p.__dict__)
+    d.pop("_settings", None)
+    return (_new_plugin, (), d)
+
+
+copyreg.pickle(H.PKG.ExcludeRegionPlugin, _reduce_plugin)
 
 
 def walk(o):
@@ -153,7 +206,18 @@ def walk(o):
         return o.__class__.__name__ + "{" + ",".join(
             k + ":" + walk(v) for k, v in sorted(d.items()) if k not in SKIP_ATTRS) + "}"
     if callable(o):
-        return "callable:" + getattr(o, "__name__", o.__class__.__name__)
+        txt = "callable:" + getattr(o, "__name__", o.__class__.__name__)
+        cl = getattr(o, "__closure__", None)
+        if cl:
+            # data captured by a closure is state; objects of the package captured by it (self) are walked where they live
+            for c in cl:
+                try:
+                    v = c.cell_contents
+                except ValueError:
+                    continue
+                if v is None or isinstance(v, (bool, int, float, str, list, tuple, dict, set, frozenset)):
+                    txt += "<" + walk(v) + ">"
+        return txt
     if hasattr(o, "__next__"):
         # a live iterator kept in the state (filter/map/list iterator): what it will still yield is state
         try:
@@ -340,19 +404,10 @@ class World(object):
     def __getstate__(self):
         d = dict(self.__dict__)
         d.pop("cfg")
-        p = d.pop("plugin")
-        pd = dict(p.__dict__)
-        pd.pop("_settings", None)
-        d["_plugin_dict"] = pd
-        return d
+        return d           # the plugin object is pickled through _reduce_plugin (registered below)
 
     def __setstate__(self, d):
-        pd = d.pop("_plugin_dict")
         self.__dict__.update(d)
-        p = H.PKG.ExcludeRegionPlugin.__new__(H.PKG.ExcludeRegionPlugin)
-        p.__dict__.update(pd)
-        p._settings = _shared_settings()
-        self.plugin = p
 
     def snapshot(self):
         return dumps(self)
@@ -1104,7 +1159,7 @@ class World(object):
         # differential probes: every program of <= depth commands after homing gives identical hook output
         depth = self.cfg.get("probe_depth", 2) + (0 if ku == kf else 1)
         import itertools
-        fsnap = dumps(dict((k, v) for k, v in fresh.__dict__.items() if k != "_settings"))
+        fsnap = dumps(fresh)
         usnap = used.snapshot()
 
         def run(plugin, prog):
@@ -1128,9 +1183,7 @@ class World(object):
         for d in range(1, depth + 1):
             for prog in itertools.product(self.C10_PROBES, repeat=d):
                 up = World.restore(usnap, self.cfg, keep_caches=True).plugin
-                fp = H.PKG.ExcludeRegionPlugin.__new__(H.PKG.ExcludeRegionPlugin)
-                fp.__dict__.update(loads(fsnap))
-                fp._settings = _shared_settings()
+                fp = loads(fsnap)
                 a = run(up, prog)
                 H.install_pkg_state(loads(fpkg))
                 b = run(fp, prog)
